@@ -2,7 +2,7 @@ from registry import reg, Check
 
 reg(Check(
     "C02", "c02",
-    coq_targets=["Cache/C02Check.vo", "Props/C02.vo"],
+    coq_targets=["Cache/C02Check.vo", "Cache/CacheProofs.vo", "Props/C02.vo"],
     assumptions=[
         "single goroutine per target (C04/C10 cover concurrency)",
         "one clock reading per API call (cache.Now constant during a call)",
